@@ -5,7 +5,7 @@
    executions through one ObjectPatcher on a cluster that serves kinds in several API
    groups (C13_GModel / C13_GSpec).  Evaluated by vm_compute in the generated cases files. *)
 From Coq Require Import String.
-From Verif Require Import Common Json C13_Model C13_Spec C13_GModel C13_GSpec C13_CModel C13_CSpec.
+From Verif Require Import Common Json C13_Model C13_Spec C13_GModel C13_GSpec C13_CModel C13_CSpec C13_TModel C13_TSpec.
 
 Record run_obs := mkRun {
   ro_parse_ok : bool;
@@ -198,16 +198,59 @@ Definition spec_ok_conc (c : conc_case) : bool :=
   && P_conc attempts project (cc_initial c) (cc_docs c) (cc_queues c) (outcome_of (cc_yaml c)) (cc_yaml_used c)
   && cc_same_ops c.
 
-(* ---------- the three case classes ---------- *)
+(* ---------- patch files as text (C13_TModel / C13_TSpec) ---------- *)
 
-Inductive case := KRun (c : run_case) | KSession (c : session_case) | KConc (c : conc_case).
+(* one execution of a patch file given as text: how the text is built ([t_shape]: JSON
+   documents with the white space in front of each, and the tail), what the generator's
+   document texts mean, what yaml.v3 makes of the whole text (None = error; judged by a
+   decoder loop of the harness's own), and what the real ParseOperations + ExecuteOperations
+   showed.  The text the implementation ran on is [text_of (t_shape c)]. *)
+Record text_case := mkText {
+  t_initial  : cluster;
+  t_shape    : shape;
+  t_table    : table;
+  t_yaml     : option (list doc);
+  t_obs      : run_obs;
+  t_operator : option op_run
+}.
+
+Definition model_text_outcome (c : text_case) : outcome :=
+  handle_text_run (t_initial c) (t_table c) (t_yaml c) (text_of (t_shape c)).
+Definition model_text (c : text_case) : run_obs := obs_of_outcome (model_text_outcome c).
+
+(* [shape_ok]: the generator's description of the text is honest (a tail it calls broken
+   really is no JSON) - a case that fails this is reported, never judged *)
+Definition agrees_text (c : text_case) : bool :=
+  shape_ok (t_shape c)
+  && run_eqb (model_text c) (t_obs c)
+  && match t_operator c with
+     | None => true
+     | Some o => op_run_agrees o (model_text_outcome c)
+     end.
+
+Definition spec_ok_text (c : text_case) : bool :=
+  negb (ro_crash (t_obs c))
+  && P_text project (t_initial c) (t_table c) (t_yaml c) (t_shape c) (outcome_of (t_obs c))
+  && match t_operator c with
+     | None => true
+     | Some o =>
+       match or_status o with
+       | OOther => false
+       | st => P_text_hook project (t_initial c) (t_table c) (t_yaml c) (t_shape c) (status_eqb st OFail) (or_cluster o) (or_calls o)
+       end
+     end.
+
+(* ---------- the four case classes ---------- *)
+
+Inductive case := KRun (c : run_case) | KSession (c : session_case) | KConc (c : conc_case) | KText (c : text_case).
 
 Definition model_obs (c : case) : list run_obs :=
-  match c with KRun r => [model_obs_run r] | KSession s => model_obs_session s | KConc k => [fst (model_conc k)] end.
+  match c with KRun r => [model_obs_run r] | KSession s => model_obs_session s | KConc k => [fst (model_conc k)]
+          | KText t => [model_text t] end.
 Definition agrees (c : case) : bool :=
-  match c with KRun r => agrees_run r | KSession s => agrees_session s | KConc k => agrees_conc k end.
+  match c with KRun r => agrees_run r | KSession s => agrees_session s | KConc k => agrees_conc k | KText t => agrees_text t end.
 Definition spec_ok (c : case) : bool :=
-  match c with KRun r => spec_ok_run r | KSession s => spec_ok_session s | KConc k => spec_ok_conc k end.
+  match c with KRun r => spec_ok_run r | KSession s => spec_ok_session s | KConc k => spec_ok_conc k | KText t => spec_ok_text t end.
 
 Definition mismatches (cs : list case) : list N := indices_where (fun c => negb (agrees c)) cs.
 Definition spec_violations (cs : list case) : list N := indices_where (fun c => negb (spec_ok c)) cs.
